@@ -2,7 +2,7 @@
   QV.Proofs.ZoneFile.Fields — single fields of typed RDATA read back (C23): IPv4 addresses and
   `<character-string>`s.
 -/
-import QV.Proofs.ZoneFile.Records
+import QV.Proofs.ZoneFile.Mnemonic
 
 namespace QV.ZF
 open QV QV.Spec.ZF
